@@ -218,10 +218,19 @@ class Tensor(Funsor, metaclass=TensorMeta):
         if not subs:
             return self
 
-        # Handle diagonal variable substitution
-        var_counts = Counter(v for v in subs.values() if isinstance(v, Variable))
+        # Handle diagonal variable substitution, including renaming onto the
+        # name of another input, which cannot be done by relabeling dims.
+        name_counts = Counter(
+            v.name for v in subs.values() if isinstance(v, (Variable, Slice))
+        )
         subs = OrderedDict(
-            (k, self.materialize(v) if var_counts[v] > 1 else v)
+            (
+                k,
+                self.materialize(v)
+                if isinstance(v, (Variable, Slice))
+                and (name_counts[v.name] > 1 or (v.name != k and v.name in self.inputs))
+                else v,
+            )
             for k, v in subs.items()
         )
 
